@@ -309,6 +309,21 @@ func runC04(o *out, thorough bool, r *rng, _ []string) map[string]interface{} {
 		o.run(301, []string{"0", "-", fHex(data), "7," + withBytes([]int{10}, r.bytes(r.intn(30)))}, true)
 		o.count("mi-after-fp-not-last")
 	}
+	// credentials that are themselves quoted / escaped / percent-encoded strings (a realm arrives quoted in some
+	// protocols): the key is MD5 of the bytes as given, quotes and all
+	for i := 0; i < 60; i++ {
+		inner := []string{"example.org", "realm", `a\nb\x41`, string(r.bytes(r.intn(10))), "", "pion.ly"}[i%6]
+		wrap := func(k int, x string) string {
+			return []string{`"` + x + `"`, "'" + x + "'", "`" + x + "`", `\"` + x + `\"`, "%22" + x + "%22", "<" + x + ">", x + `"`, x}[k%8]
+		}
+		c := [3]string{"user", "realm", "pass"}
+		c[i%3] = wrap(i/3, inner)
+		if i%7 == 0 {
+			c[(i+1)%3] = wrap(i, inner)
+		}
+		o.run(401, []string{fHex([]byte(c[0])), fHex([]byte(c[1])), fHex([]byte(c[2]))}, true)
+		o.count("quoted-credentials")
+	}
 	// explicit 401 cases with format verbs and separators in the credentials
 	for _, c := range [][3]string{{"%s", "realm", "pass"}, {"user", "%d%%", "p"}, {"a:b", "c", "d"}, {"u", "r", "%!x(MISSING)"}, {"%v%v", "%", "%%"}, {"", "", ""},
 		// code points that SASLprep would map away or replace (the key is MD5 of the bytes as given: preparing them is the caller's
